@@ -102,7 +102,9 @@ pub fn explore(ex: &Ex) {
     let max_size = ex.pick(3usize, 3, 4);
     ex.bound("c12.decode", "map_size_max", json!(max_size));
     // bystanders per map kind (valid, distinct from most labels; a clash only adds a second duplicate)
-    let by_header = vec![(u(4), b(b"k")), (u(1000), u(0))];
+    // (in headers the first bystander is a counter signature: decoding it re-enters the header
+    // decoder between the two occurrences)
+    let by_header = vec![(u(7), gen::arr(vec![gen::sig_valid2(), gen::sig_valid()])), (u(4), b(b"k"))];
     let by_key = vec![(u(2), b(b"k")), (u(1000), u(0))];
     let by_claims = vec![(u(7), b(b"c")), (i(-70000), u(0))];
     par_partitions(ex.rep, labels, |label, l| {
